@@ -209,6 +209,13 @@ func generate(p *Prog, prop string) *checkResult {
 		cr.obls = append(cr.obls, obls...)
 		cr.funcs = append(cr.funcs, info)
 	}
+	// closes-only channels: nothing in the module sends on them
+	for _, co := range p.cs.ClosesOnly {
+		if prop != "" && !containsStr(co.Props, prop) {
+			continue
+		}
+		cr.obls = append(cr.obls, p.closesOnlyObligation(co, prop))
+	}
 	// lemmas
 	for _, lm := range p.cs.Lemmas {
 		if !containsStr(lm.Props, prop) {
@@ -239,12 +246,92 @@ func obligationServes(ob *Obligation, fc *FuncContract, prop string) bool {
 
 func (ob *Obligation) query(wantModel bool) string {
 	if ob.Expect == "sat" {
-		return ob.Script.Query(ob.Goal, false, ob.cutDecls, ob.cutAsserts)
+		return ob.Script.QueryExcluding(ob.Goal, false, ob.cutDecls, ob.cutAsserts, ob.excluded)
 	}
-	return ob.Script.Query(Not(ob.Goal), wantModel, ob.cutDecls, ob.cutAsserts)
+	return ob.Script.QueryExcluding(Not(ob.Goal), wantModel, ob.cutDecls, ob.cutAsserts, ob.excluded)
+}
+
+func sameSet(a, b map[int]bool) bool {
+	if len(a) != len(b) {
+		return false
+	}
+	for k := range a {
+		if !b[k] {
+			return false
+		}
+	}
+	return true
+}
+
+func copySet(a map[int]bool) map[int]bool {
+	out := map[int]bool{}
+	for k := range a {
+		out[k] = true
+	}
+	return out
 }
 
 func discharge(obls []*Obligation, o *options) float64 {
+	start := time.Now()
+	var proofs, covers []*Obligation
+	for _, ob := range obls {
+		if ob.Expect == "sat" {
+			covers = append(covers, ob)
+		} else {
+			proofs = append(proofs, ob)
+		}
+	}
+	dischargeSet(proofs, o)
+	// A failed obligation must not be assumed by the obligations after it (it could make them
+	// vacuously true): re-check the later obligations of the same function without those facts.
+	failedBy := map[*Script]map[int]bool{}
+	for round := 0; round < 4; round++ {
+		changed := false
+		for _, ob := range proofs {
+			if ob.Status == "failed" && ob.Script != nil && ob.assumeIdx >= 0 {
+				if failedBy[ob.Script] == nil {
+					failedBy[ob.Script] = map[int]bool{}
+				}
+				if !failedBy[ob.Script][ob.assumeIdx] {
+					failedBy[ob.Script][ob.assumeIdx] = true
+					changed = true
+				}
+			}
+		}
+		if !changed {
+			break
+		}
+		var redo []*Obligation
+		for _, ob := range proofs {
+			ex := failedBy[ob.Script]
+			if ob.Status != "discharged" || ob.Script == nil || len(ex) == 0 {
+				continue
+			}
+			affected := false
+			for idx := range ex {
+				if idx < ob.cutAsserts || ob.cutAsserts < 0 {
+					affected = true
+				}
+			}
+			if affected && !sameSet(ob.excluded, ex) {
+				ob.excluded = copySet(ex)
+				ob.Status = ""
+				redo = append(redo, ob)
+			}
+		}
+		if len(redo) == 0 {
+			break
+		}
+		dischargeSet(redo, o)
+	}
+	for _, ob := range covers {
+		ob.excluded = failedBy[ob.Script]
+	}
+	dischargeSet(covers, o)
+	return time.Since(start).Seconds()
+}
+
+func dischargeSet(obls []*Obligation, o *options) float64 {
 	start := time.Now()
 	var wg sync.WaitGroup
 	sem := make(chan struct{}, 14)
